@@ -82,43 +82,88 @@ Proof.
   destruct (g =? gid); [intros E; inversion E; subst; exact Hr|apply IH].
 Qed.
 
-Lemma components_total rc : (forall g, total (rc g)) ->
-  forall parts all ph, total (components rc parts all ph).
+Lemma components_total rc : (forall g c, total (rc g c)) ->
+  forall parts all ph ec, total (components rc parts all ph ec).
 Proof.
-  intros Hrc. induction parts as [|p r IH]; intros all ph; cbn [components]; [exact I|].
-  apply total_bind; [apply Hrc|]. intros comp _.
+  intros Hrc. induction parts as [|p r IH]; intros all ph ec; cbn [components]; [exact I|].
+  apply total_bind; [apply Hrc|]. intros [comp ec1] _.
   destruct (zlen comp <? 4); apply IH.
 Qed.
 
 Lemma points_for_glyph_total_gen e : recs_nonneg e ->
-  forall fuel gid depth, 1 <= Z.of_nat fuel -> 22 - depth <= Z.of_nat fuel ->
-  total (points_for_glyph fuel e gid depth).
+  forall fuel gid depth ec, 1 <= Z.of_nat fuel -> 22 - depth <= Z.of_nat fuel ->
+  total (points_for_glyph fuel e gid depth ec).
 Proof.
-  intros Hr. induction fuel as [|k IH]; intros gid depth H1 H2; [lia|].
+  intros Hr. induction fuel as [|k IH]; intros gid depth ec H1 H2; [lia|].
   cbn [points_for_glyph].
-  destruct ((max_composite_nesting <? depth) || (e_nglyf e <=? gid)) eqn:E; [exact I|].
-  apply Bool.orb_false_iff in E. destruct E as [E _]. unfold max_composite_nesting in E. apply Z.ltb_ge in E.
+  destruct ((max_composite_nesting <? depth) || (max_composite_edges <? ec) || (e_nglyf e <=? gid)) eqn:E; [exact I|].
+  apply Bool.orb_false_iff in E. destruct E as [E _]. apply Bool.orb_false_iff in E. destruct E as [E _].
+  unfold max_composite_nesting in E. apply Z.ltb_ge in E.
   destruct (lookup_rec (e_recs e) gid) as [raw|] eqn:El; [|exact I].
   apply total_bind; [apply parse_glyph_full_total; eapply lookup_rec_nonneg; eauto|].
   intros [h body] _.
   apply total_bind.
   - destruct body; try exact I.
-    apply total_bind; [|intros; exact I].
-    apply components_total. intros g. apply IH; lia.
-  - intros all _. destruct (depth =? 0); exact I.
+    apply total_bind; [|intros [[a b] c] _; exact I].
+    apply components_total. intros g c. apply IH; lia.
+  - intros [all ec'] _. destruct (depth =? 0); exact I.
 Qed.
 
 Lemma glyf_all_points_total_lemma e gid : recs_nonneg e -> total (glyf_all_points e gid).
-Proof. intros Hr. unfold glyf_all_points, comp_fuel. apply points_for_glyph_total_gen; [exact Hr|lia|lia]. Qed.
-
-(* more fuel never changes a result *)
-Lemma components_ext rc rc' parts : (forall g, In g (map p_gid parts) -> rc g = rc' g) ->
-  forall all ph, components rc parts all ph = components rc' parts all ph.
 Proof.
-  induction parts as [|p r IH]; intros Hg all ph; cbn [components]; [reflexivity|].
-  rewrite <- (Hg (p_gid p)) by (left; reflexivity).
-  destruct (rc (p_gid p)) as [comp| | |]; cbn [bind]; try reflexivity.
-  destruct (zlen comp <? 4); apply IH; intros g Hin; apply Hg; right; exact Hin.
+  intros Hr. unfold glyf_all_points, comp_fuel.
+  apply total_bind; [apply points_for_glyph_total_gen; [exact Hr|lia|lia]|intros; exact I].
+Qed.
+
+(* the budget: the counter only grows, and never beyond 1025 (a call is entered only while it is at most 1024) *)
+Lemma components_edges rc : (forall g c comp c', rc g c = Ok (comp, c') -> c <= c' /\ (c <= 1025 -> c' <= 1025)) ->
+  forall parts all ph ec all' ph' ec', components rc parts all ph ec = Ok (all', ph', ec') ->
+  ec <= ec' /\ (ec <= 1025 -> ec' <= 1025).
+Proof.
+  intros Hrc. induction parts as [|p r IH]; intros all ph ec all' ph' ec' H; cbn [components] in H.
+  - inversion H; subst. lia.
+  - destruct (rc (p_gid p) ec) as [[comp ec1]| | |] eqn:Er; cbn [bind] in H; try discriminate.
+    destruct (Hrc _ _ _ _ Er) as [A B].
+    destruct (zlen comp <? 4); apply IH in H; lia.
+Qed.
+
+Definition body_result (k : nat) (e : cenv) (gid depth ec : Z) (h : glyph_hdr) (body : glyph_body) : res (list cpoint * Z) :=
+  match body with
+  | BSimple end_pts pts0 => Ok (map fp_of_int_point (contour_points_from 0 end_pts pts0) ++ phantoms_of e h gid, ec + 1)
+  | BNone => Ok (phantoms_of e h gid, ec + 1)
+  | BComposite parts =>
+      do r <- components (fun g' c => points_for_glyph k e g' (depth + 1) c) parts [] (phantoms_of e h gid) (ec + 1);
+      let '(all', ph', ec'0) := r in Ok (all' ++ ph', ec'0)
+  end.
+
+Lemma points_for_glyph_edges e : forall fuel gid depth ec pts ec',
+  points_for_glyph fuel e gid depth ec = Ok (pts, ec') -> ec <= ec' /\ (ec <= 1025 -> ec' <= 1025).
+Proof.
+  induction fuel as [|k IH]; intros gid depth ec pts ec' H; [discriminate|].
+  cbn [points_for_glyph] in H.
+  destruct ((max_composite_nesting <? depth) || (max_composite_edges <? ec) || (e_nglyf e <=? gid)) eqn:E.
+  { inversion H; subst. lia. }
+  apply Bool.orb_false_iff in E. destruct E as [E _]. apply Bool.orb_false_iff in E. destruct E as [_ E].
+  unfold max_composite_edges in E. apply Z.ltb_ge in E.
+  destruct (lookup_rec (e_recs e) gid) as [raw|]; [|discriminate].
+  destruct (parse_glyph_full raw) as [[h body]| | |]; cbn [bind] in H; try discriminate.
+  change (match body with
+          | BNone => Ok (phantoms_of e h gid, ec + 1)
+          | BSimple end_pts pts0 => Ok (map fp_of_int_point (contour_points_from 0 end_pts pts0) ++ phantoms_of e h gid, ec + 1)
+          | BComposite parts =>
+              do r <- components (fun g' c => points_for_glyph k e g' (depth + 1) c) parts [] (phantoms_of e h gid) (ec + 1);
+              let '(all', ph', ec'0) := r in Ok (all' ++ ph', ec'0)
+          end) with (body_result k e gid depth ec h body) in H.
+  assert (Hb : forall all ec1, body_result k e gid depth ec h body = Ok (all, ec1) -> ec + 1 <= ec1 /\ ec1 <= 1025).
+  { intros all ec1 Hb. unfold body_result in Hb. destruct body.
+    - inversion Hb; subst. lia.
+    - inversion Hb; subst. lia.
+    - destruct (components _ parts [] (phantoms_of e h gid) (ec + 1)) as [[[a b] c]| | |] eqn:Ec; cbn [bind] in Hb; try discriminate.
+      inversion Hb; subst.
+      apply components_edges in Ec; [lia|]. intros g c0 comp c' Hc. eapply IH; exact Hc. }
+  destruct (body_result k e gid depth ec h body) as [[all ec1]| | |] eqn:Eb; cbn [bind] in H; try discriminate.
+  specialize (Hb _ _ eq_refl).
+  destruct (depth =? 0); inversion H; subst; lia.
 Qed.
 
 (* ------------------------------------------------------------------------------------------------ *)
@@ -137,12 +182,12 @@ Proof.
   - exists (base_map p). split; [reflexivity|]. rewrite map_map. reflexivity.
 Qed.
 
-Lemma components_assembled rc : forall parts all ph all' ph',
-  components rc parts all ph = Ok (all', ph') -> assembled rc parts all ph all' ph'.
+Lemma components_assembled rc : forall parts all ph ec all' ph' ec',
+  components rc parts all ph ec = Ok (all', ph', ec') -> assembled rc parts all ph ec all' ph' ec'.
 Proof.
-  induction parts as [|p r IH]; intros all ph all' ph' H; cbn [components] in H.
+  induction parts as [|p r IH]; intros all ph ec all' ph' ec' H; cbn [components] in H.
   - inversion H; subst. constructor.
-  - destruct (rc (p_gid p)) as [comp| | |] eqn:Er; cbn [bind] in H; try discriminate.
+  - destruct (rc (p_gid p) ec) as [[comp ec1]| | |] eqn:Er; cbn [bind] in H; try discriminate.
     destruct (zlen comp <? 4) eqn:E4.
     + eapply as_skip; eauto. apply Z.ltb_lt; exact E4.
     + destruct (place_component_spec p all comp) as [T [HT Hpl]].
@@ -151,19 +196,19 @@ Proof.
 Qed.
 
 (* the points contributed by the components, in order *)
-Lemma assembled_concat rc parts : forall all ph all' ph',
-  assembled rc parts all ph all' ph' ->
+Lemma assembled_concat rc parts : forall all ph ec all' ph' ec',
+  assembled rc parts all ph ec all' ph' ec' ->
   exists contribs : list (cpart * list cpoint * (cpoint -> cpoint)),
     all' = all ++ concat (map (fun t => map (snd t) (drop_last4 (snd (fst t)))) contribs)
-    /\ Forall (fun t => In (fst (fst t)) parts /\ rc (p_gid (fst (fst t))) = Ok (snd (fst t)) /\ 4 <= zlen (snd (fst t))) contribs.
+    /\ Forall (fun t => In (fst (fst t)) parts /\ (exists c c', rc (p_gid (fst (fst t))) c = Ok (snd (fst t), c')) /\ 4 <= zlen (snd (fst t))) contribs.
 Proof.
-  induction 1 as [all ph|p r all ph all' ph' comp Hc Hs Ha IH|p r all ph all' ph' comp T Hc Hs HT Ha IH].
+  induction 1 as [all ph ec|p r all ph ec all' ph' ec' comp ec1 Hc Hs Ha IH|p r all ph ec all' ph' ec' comp ec1 T Hc Hs HT Ha IH].
   - exists []. cbn. rewrite app_nil_r. split; [reflexivity|constructor].
   - destruct IH as [cs [E F]]. exists cs. split; [exact E|].
     eapply Forall_impl; [|exact F]. intros t [Hin Hr]. split; [right; exact Hin|exact Hr].
   - destruct IH as [cs [E F]]. exists ((p, comp, T) :: cs). split.
     + cbn [map concat fst snd]. rewrite E, <- app_assoc. reflexivity.
-    + constructor; [cbn; split; [left; reflexivity|split; assumption]|].
+    + constructor; [cbn; split; [left; reflexivity|split; [eexists; eexists; exact Hc|assumption]]|].
       eapply Forall_impl; [|exact F]. intros t [Hin Hr]. split; [right; exact Hin|exact Hr].
 Qed.
 
@@ -407,34 +452,47 @@ Qed.
 Definition top_shift (depth : Z) (all : list cpoint) : list cpoint :=
   if depth =? 0 then map (fp_translate (f32_neg (cp_x (nth 0 (last4 all) fp_zero))) 0) all else all.
 
-Lemma composite_points_lemma e gid depth k raw h parts all :
-  lookup_rec (e_recs e) gid = Some raw -> gid < e_nglyf e -> depth <= 20 ->
-  parse_glyph_full raw = Ok (h, BComposite parts) ->
-  points_for_glyph (S k) e gid depth = Ok all ->
-  exists all' ph',
-    assembled (fun g => points_for_glyph k e g (depth + 1)) parts [] (phantoms_of e h gid) all' ph'
-    /\ all = top_shift depth (all' ++ ph').
+Lemma budget_cond_false e gid depth ec : gid < e_nglyf e -> depth <= 20 -> ec <= 1024 ->
+  (max_composite_nesting <? depth) || (max_composite_edges <? ec) || (e_nglyf e <=? gid) = false.
 Proof.
-  intros Hl Hg Hd Hp H. cbn [points_for_glyph] in H.
-  replace ((max_composite_nesting <? depth) || (e_nglyf e <=? gid)) with false in H.
-  2:{ symmetry. apply Bool.orb_false_iff. unfold max_composite_nesting. split; [apply Z.ltb_ge|apply Z.leb_gt]; lia. }
-  rewrite Hl, Hp in H. cbn [bind] in H.
-  destruct (components _ parts [] (phantoms_of e h gid)) as [[all' ph']| | |] eqn:Ec; cbn [bind fst snd] in H; try discriminate.
-  exists all', ph'. split; [apply components_assembled; exact Ec|].
-  unfold top_shift. destruct (depth =? 0); inversion H; reflexivity.
+  intros. apply Bool.orb_false_iff. unfold max_composite_nesting, max_composite_edges.
+  split; [apply Bool.orb_false_iff; split; apply Z.ltb_ge; lia|apply Z.leb_gt; lia].
 Qed.
 
-Lemma simple_points_lemma e gid depth k raw h end_pts pts all :
-  lookup_rec (e_recs e) gid = Some raw -> gid < e_nglyf e -> depth <= 20 ->
-  parse_glyph_full raw = Ok (h, BSimple end_pts pts) ->
-  points_for_glyph (S k) e gid depth = Ok all ->
-  all = top_shift depth (map fp_of_int_point (contour_points_from 0 end_pts pts) ++ phantoms_of e h gid).
+Lemma composite_points_lemma e gid depth ec k raw h parts all ec' :
+  lookup_rec (e_recs e) gid = Some raw -> gid < e_nglyf e -> depth <= 20 -> ec <= 1024 ->
+  parse_glyph_full raw = Ok (h, BComposite parts) ->
+  points_for_glyph (S k) e gid depth ec = Ok (all, ec') ->
+  exists all' ph',
+    assembled (fun g c => points_for_glyph k e g (depth + 1) c) parts [] (phantoms_of e h gid) (ec + 1) all' ph' ec'
+    /\ all = top_shift depth (all' ++ ph').
 Proof.
-  intros Hl Hg Hd Hp H. cbn [points_for_glyph] in H.
-  replace ((max_composite_nesting <? depth) || (e_nglyf e <=? gid)) with false in H.
-  2:{ symmetry. apply Bool.orb_false_iff. unfold max_composite_nesting. split; [apply Z.ltb_ge|apply Z.leb_gt]; lia. }
+  intros Hl Hg Hd He Hp H. cbn [points_for_glyph] in H.
+  rewrite (budget_cond_false e gid depth ec Hg Hd He) in H.
   rewrite Hl, Hp in H. cbn [bind] in H.
-  unfold top_shift. destruct (depth =? 0); inversion H; reflexivity.
+  destruct (components _ parts [] (phantoms_of e h gid) (ec + 1)) as [[[all' ph'] ec1]| | |] eqn:Ec; cbn [bind fst snd] in H; try discriminate.
+  exists all', ph'. unfold top_shift.
+  destruct (depth =? 0); inversion H; subst; (split; [apply components_assembled; exact Ec|reflexivity]).
+Qed.
+
+Lemma simple_points_lemma e gid depth ec k raw h end_pts pts all ec' :
+  lookup_rec (e_recs e) gid = Some raw -> gid < e_nglyf e -> depth <= 20 -> ec <= 1024 ->
+  parse_glyph_full raw = Ok (h, BSimple end_pts pts) ->
+  points_for_glyph (S k) e gid depth ec = Ok (all, ec') ->
+  all = top_shift depth (map fp_of_int_point (contour_points_from 0 end_pts pts) ++ phantoms_of e h gid) /\ ec' = ec + 1.
+Proof.
+  intros Hl Hg Hd He Hp H. cbn [points_for_glyph] in H.
+  rewrite (budget_cond_false e gid depth ec Hg Hd He) in H.
+  rewrite Hl, Hp in H. cbn [bind] in H.
+  unfold top_shift. destruct (depth =? 0); inversion H; auto.
+Qed.
+
+(* past the budget a call contributes nothing and leaves the counter alone *)
+Lemma over_budget_lemma fuel e gid depth ec : 1024 < ec -> points_for_glyph (S fuel) e gid depth ec = Ok ([], ec).
+Proof.
+  intros H. cbn [points_for_glyph].
+  replace (max_composite_edges <? ec) with true by (symmetry; apply Z.ltb_lt; exact H).
+  rewrite Bool.orb_true_r. reflexivity.
 Qed.
 
 (* the box of the float32 points encloses them and is attained; width and height are the rounded differences *)
